@@ -538,7 +538,8 @@ def false_structures_mask(foreground, smoothness_factor=None):
                          ''.format(unique))
 
     result = distance_transform_edt(
-        1.0 - foreground, sampling=getattr(space, 'cell_sides', 1.0)
+        1.0 - np.asarray(foreground, dtype=float),
+        sampling=getattr(space, 'cell_sides', 1.0)
     )
     if has_space:
         return space.element(result)
